@@ -352,3 +352,53 @@ func (x *Uint64) Load() uint64                    { return LoadUint64(&x.v) }
 func (x *Uint64) Store(v uint64)                  { StoreUint64(&x.v, v) }
 func (x *Uint64) Add(d uint64) uint64             { return AddUint64(&x.v, d) }
 func (x *Uint64) CompareAndSwap(o, n uint64) bool { return CompareAndSwapUint64(&x.v, o, n) }
+
+// Pool is the controlled replacement of sync.Pool. The runtime may drop pooled items at any garbage collection
+// and keeps per-P caches, so what Get returns depends on timing; inside a controlled execution the pool is a
+// plain LIFO list that starts empty in every execution (a fresh process), which keeps executions replayable.
+// Outside executions it is the real sync.Pool.
+type Pool struct {
+	New   func() interface{}
+	real  sync.Pool
+	owner *sched
+	items []interface{}
+}
+
+func (p *Pool) Get() interface{} {
+	s := active()
+	if s == nil {
+		if v := p.real.Get(); v != nil {
+			return v
+		}
+		if p.New != nil {
+			return p.New()
+		}
+		return nil
+	}
+	if p.owner != s {
+		p.owner, p.items = s, nil
+	}
+	s.point(&pendingOp{kind: opAtomic, label: "pool get"})
+	if n := len(p.items); n > 0 {
+		v := p.items[n-1]
+		p.items = p.items[:n-1]
+		return v
+	}
+	if p.New != nil {
+		return p.New()
+	}
+	return nil
+}
+
+func (p *Pool) Put(v interface{}) {
+	s := active()
+	if s == nil {
+		p.real.Put(v)
+		return
+	}
+	if p.owner != s {
+		p.owner, p.items = s, nil
+	}
+	s.point(&pendingOp{kind: opAtomic, label: "pool put"})
+	p.items = append(p.items, v)
+}
